@@ -186,7 +186,7 @@ async def fold_correspondence(ctx, nseq: int, nops: int, salt: str):
 # ---------------------------------------------------------------------------------------------
 
 
-def gen_watch_project(r, safe: bool = False):
+def gen_watch_project(r, safe: bool = False, sub_glob: bool = False):
     """A project whose plan globs directories and recursive patterns, reads an input nobody declares,
     uses a static tree, and has an optional and (sometimes) a failing step."""
     from simdirector import A, Project, plan_file
@@ -227,6 +227,17 @@ def gen_watch_project(r, safe: bool = False):
         feats.append("failing")
         plan.append(A.step("boom", inp=["src/b.txt"], out=["out/boom.txt"]))
         scripts["boom"] = [A.read_declared(), A.exit(1)]
+    if sub_glob:
+        # a sub-plan with a static input of its own that globs a directory: the step that holds the pattern can
+        # be made pending (and unable to run) by removing that input
+        feats.append("sub-glob")
+        files["src/list.txt"] = "list v0\n"
+        files["g2/m0.in"] = "m0\n"
+        sub = [A.foreach("g2/${*n}.in", [A.step("take ${n}", inp=["${path}"], out=["out/t_${n}.txt"])])]
+        scripts["./gen.py"] = sub
+        files["gen.py"] = plan_file(sub, note="c14")
+        plan.insert(1, A.static("gen.py", "src/list.txt"))
+        plan.append(A.step("./gen.py", inp=["gen.py", "src/list.txt"], plan=True))
     scripts["./plan.py"] = plan
     files["plan.py"] = plan_file(plan, note="c14")
     return Project(scripts=scripts, files=files, env={}), feats
@@ -605,7 +616,7 @@ def sim_pairs(ctx, ncase: int, salt: str, only: int | None = None, applied_log=N
         safe = r.random() < 0.5
         directed = None
         if family == "watchy" and r.random() < 0.4:
-            directed = r.choice(["move-back-then-edit", "subdir-moved-during-build"])
+            directed = r.choice(["move-back-then-edit", "subdir-moved-during-build", "restore-input-with-new-match"])
             safe = True  # keep the known classes out of the way of the scenario
         if family == "projgen":
             model = projgen.gen_model(r, fail_prob=r.choice([0.0, 0.0, 0.2]))
@@ -616,7 +627,7 @@ def sim_pairs(ctx, ncase: int, salt: str, only: int | None = None, applied_log=N
             if model.resources:
                 kw["resources"] = model.resources
         else:
-            project, feats = gen_watch_project(r, safe)
+            project, feats = gen_watch_project(r, safe, sub_glob=directed == "restore-input-with-new-match")
             r.randint(1, 3)
             kw = {"njob": 1}
         # One job slot: with more, a pending step can be dispatched while its pending creator re-runs
@@ -670,6 +681,13 @@ def sim_pairs(ctx, ncase: int, salt: str, only: int | None = None, applied_log=N
             labels, batch = [], []
             # edits are generated against the tree as it evolves: apply to a scratch view
             files, dirs = dict(simR.files()), list(simR.dirs())
+            if directed == "restore-input-with-new-match" and n in (1, 2):
+                # (C) the input of the step that holds a pattern is removed (the step is pending and cannot run),
+                # then restored with the same content while a new file starts matching the pattern
+                if n == 1:
+                    return (["remove_glob_step_input"], [("remove", "src/list.txt")], [])
+                return (["restore_input_and_new_match"],
+                        [("write", "src/list.txt", "list v0\n"), ("write", "g2/m1.in", "m1\n")], [])
             if directed == "move-back-then-edit" and n == 1:
                 d = r.choice(sorted(a for a in anchors if a in dirs))
                 state["moved_back"].append(d)
